@@ -780,11 +780,69 @@ def run(chk, facts, tier, only=None):
                        f"is in the table but fails the other condition is emitted as a bare keyword",
                        where=f"{h['span']['file']}:{weakened[0].get('ln')}" if weakened else None, ok_detail="the table test is the whole condition")
 
+
+    # ------------------------------------------------------------------------------------------------ R9
+    def r9():
+        """Distinct Candid type names stay distinct after the identifier escaper of a generator: the escapers are evaluated (their syntax
+        trees, by the checker's interpreter) on the names that can collide — every word of the keyword table, the word followed by one and
+        two underscores, and plain identifiers with and without trailing underscores."""
+        from c11_util import Interp, NotEvaluable
+        cc = facts.crate("candid")
+        for name, tabkey, extra_args in (("javascript::ident", "javascript::KEYWORDS", []), ("motoko::escape", "motoko::KEYWORDS", [False])):
+            if chk.prop == "C17" and not name.startswith("javascript"):
+                continue            # C17 is about the JavaScript generator only
+            h = c.fn("^" + re.escape(BIND + name) + "$")
+            _, tab = keyword_table(c, "^" + re.escape(BIND + tabkey) + "$")
+            chk.analysed(h["key"])
+            dom = []
+            for w in sorted(tab) + ["x", "t1", "a_b", "_"]:
+                dom += [w, w + "_", w + "__"]
+            img = {}
+            failed = None
+            for w in dom:
+                try:
+                    out = Interp(c, extra_crates=[cc]).call_fn(h, [w] + extra_args)
+                except NotEvaluable as e_:
+                    failed = f"{w!r}: {e_}"
+                    break
+                if not isinstance(out, str):
+                    failed = f"{w!r}: result {out!r} is not text"
+                    break
+                img.setdefault(out, []).append(w)
+            if failed:
+                raise AnchorMissing(f"{name} cannot be evaluated on {failed}")
+            clashes = sorted(tuple(v) for v in img.values() if len(v) > 1)
+            chk.expect(not clashes, f"escaper-injective:{name}",
+                       f"{BIND}{name} maps distinct type names to one identifier: " + "; ".join(" and ".join(f"`{x}`" for x in cl) + f" -> `{[k for k, v in img.items() if tuple(v) == cl][0]}`" for cl in clashes[:4])
+                       + f" ({len(clashes)} clash(es) among {len(dom)} names): a program that defines both gets one declaration for two types "
+                         f"(a redeclaration error in JavaScript/TypeScript; the second definition wins elsewhere)",
+                       where=f"{h['span']['file']}:{h['span']['lo']}", ok_detail=f"{len(dom)} names, {len(img)} distinct results")
+            # ... and whatever the name is (labels are arbitrary text), what comes out is one identifier of the target language
+            if name == "motoko::escape":
+                odd = sorted(set(w for w in tab if not re.fullmatch(r"[A-Za-z_][A-Za-z0-9_]*", w))) + ["a b", "a;b_", "x : Nat; y_", "\"", "é", "1a", "a-b", "", "_ _"]
+                leaks = []
+                for w in odd:
+                    try:
+                        out = Interp(c, extra_crates=[cc]).call_fn(h, [w] + extra_args)
+                    except NotEvaluable as e_:
+                        raise AnchorMissing(f"{name} cannot be evaluated on {w!r}: {e_}")
+                    if not (isinstance(out, str) and re.fullmatch(r"[A-Za-z_][A-Za-z0-9_]*", out)):
+                        leaks.append((w, out))
+                chk.expect(not leaks, f"escaper-output-is-identifier:{name}",
+                           f"{BIND}{name}(label, is_method = false) returns text that is not a single identifier for the label(s) "
+                           + "; ".join(f"`{w}` -> `{o}`" for w, o in leaks[:4]) + ": a field or variant label is arbitrary quoted text, and it is copied into the "
+                           "generated Motoko source (token injection)", where=f"{h['span']['file']}:{h['span']['lo']}",
+                           ok_detail=f"{len(odd)} non-identifier labels all become identifiers")
+            kw_out = sorted(w for w in tab if w in img and any(x in tab for x in [k for k, v in img.items() if w in v]))
+            chk.expect(not kw_out, f"escaper-output-not-reserved:{name}", f"{BIND}{name} returns a word of its own table for {kw_out[:5]}",
+                       ok_detail="no result is a table word")
+
     for rid, desc, f in (("C19.R1", "totality: panicking arms, unwraps and indexing of the generators are within the justified inventory", r1),
                          ("C19.R2", "determinism: no hash-order iteration, clock, random or environment access reachable from compile", r2),
                          ("C19.R3", "program text between quotes / in comments is escaped (RcDoc chains, format!, handlebars templates)", r3),
                          ("C19.R4", "closedness: type names defined and referenced through the same escaper; one loop over the methods", r4),
-                         ("C19.R5", "keyword tables cover the reserved words of ECMAScript/TypeScript, Motoko and Rust", r5)):
+                         ("C19.R5", "keyword tables cover the reserved words of ECMAScript/TypeScript, Motoko and Rust", r5),
+                         ("C19.R9", "identifier escapers are injective: distinct type names never collapse into one target identifier", r9)):
         if only and only != rid:
             continue
         chk.run_rule(rid, desc, f)
